@@ -10,7 +10,13 @@ func init() {
 	simkit.Register(&simkit.Prop{ID: "C01", Gen: genC01, Exec: execSession("C01"), Shrink: shrinkSession})
 	simkit.Register(&simkit.Prop{ID: "C02", Gen: genC02, Exec: execSession("C02"), Shrink: shrinkSession})
 	simkit.Register(&simkit.Prop{ID: "C04", Gen: genC04, Exec: execSession("C04"), Shrink: shrinkSession})
-	simkit.Register(&simkit.Prop{ID: "C05", Gen: genC05, Exec: execSession("C05"), Shrink: shrinkSession})
+	simkit.Register(&simkit.Prop{ID: "C05", Gen: genC05, Exec: func(r *simkit.Run) {
+		if r.Plan.C("mode") == 1 {
+			execC05Map(r)
+			return
+		}
+		execSession("C05")(r)
+	}, Shrink: shrinkSession})
 	simkit.Register(&simkit.Prop{ID: "C09", Gen: genC09, Exec: execSession("C09"), Shrink: shrinkSession})
 }
 
@@ -121,6 +127,10 @@ func genC01(tier string, seed uint64, idx int) *simkit.Plan {
 	}
 	empties := rng.Chance(1, 6)
 	dups := rng.Chance(1, 5)
+	wrongCookies := rng.Chance(1, 4)
+	if wrongCookies {
+		dups = true
+	}
 	for i := 0; i < n; i++ {
 		switch x := rng.Intn(100); {
 		case x < 4:
@@ -152,6 +162,10 @@ func genC01(tier string, seed uint64, idx int) *simkit.Plan {
 				}
 				if rng.Chance(1, 5) {
 					s.A["fsync"] = 1
+				}
+				if wrongCookies && rng.Chance(1, 4) {
+					// an upload presenting another cookie (identical or different bytes)
+					s.A["cookie"] = int64(0x7000 + rng.Intn(3))
 				}
 			}
 			p.Add(s)
@@ -326,6 +340,10 @@ func genC04(tier string, seed uint64, idx int) *simkit.Plan {
 func genC05(tier string, seed uint64, idx int) *simkit.Plan {
 	rng := simkit.NewRand(seed)
 	p := &simkit.Plan{Engine: "volsim"}
+	if idx%3 == 2 {
+		genC05Map(rng, p, idx)
+		return p
+	}
 	p.SetC("kind", int64(idx%2))
 	p.SetC("counters", 1)
 	p.SetC("faults", 1)
@@ -394,6 +412,7 @@ func genC09(tier string, seed uint64, idx int) *simkit.Plan {
 	volMin := int(ttlMinutes(volTtl))
 	keys := rng.Range(1, 4)
 	clientTs := rng.Chance(1, 3)
+	rewrites := rng.Chance(1, 3)
 	maxKey := 100
 	n := rng.Range(4, 20)
 	for i := 0; i < n; i++ {
@@ -411,6 +430,12 @@ func genC09(tier string, seed uint64, idx int) *simkit.Plan {
 			}
 			if mode != 0 && rng.Chance(2, 3) {
 				s.S = map[string]string{"ttl": ttlChoices()[rng.Intn(len(ttlChoices()))]}
+			}
+			if rewrites && rng.Chance(1, 2) {
+				// identical re-uploads (same bytes, same key) some time after the first one
+				s.A["dup"] = int64(1 + rng.Intn(2))
+				s.A["size"] = 12
+				s.A["lm"] = 0
 			}
 			p.Add(s)
 		case 1:
